@@ -46,6 +46,17 @@ def features_for(spec, clause, detail, cand=None):
         for key in ("worker", "resource", "cumulative"):
             if detail.get(key):
                 f["resource_kind"] = "cumulative" if rs.cumulative_spec(spec, detail[key]) else "worker"
+        # a cumulative worker reached only through a SelectWorkers that lists it
+        res_name = detail.get("resource") or detail.get("worker") or detail.get("cumulative")
+        if res_name is None and detail.get("want"):
+            res_name = None
+        for sel in spec.get("selections", []):
+            cums = [w for w in sel["workers"] if rs.cumulative_spec(spec, w)]
+            if cums and (res_name in cums or (tn and any(r["task"] == tn and r["resource"] == sel["id"]
+                                                          for r in spec.get("requirements", [])))):
+                f["selection_over_cumulative"] = True
+        if tn and tn in (spec.get("sel_over_cumulative") or {}):
+            f["selection_over_cumulative"] = True
         if clause.startswith("C08.obj."):
             f["objective"] = clause[len("C08.obj."):]
         if detail.get("kind") in rs.LOGIC and detail.get("id") is not None:
@@ -371,9 +382,63 @@ def run_solve_case(acc, case):
     return res
 
 
+def run_suite_case(acc, case):
+    """L7: the repository's own tests under the universal monitors (rtmon/suite_plugin.py)"""
+    import os
+    import shutil
+    import subprocess
+    import sys
+    import tempfile
+    root = os.path.dirname(os.path.dirname(os.path.dirname(os.path.abspath(__file__))))
+    repo = os.environ.get("RTMON_REPO", "/repo")
+    tests = os.path.join(repo, "test") if os.path.isdir(os.path.join(repo, "test")) else "/repo/test"
+    scratch = tempfile.mkdtemp(prefix="rtmon_suite_")
+    out = os.path.join(scratch, "suite.jsonl")
+    env = dict(os.environ, RTMON_SUITE_OUT=out, MPLBACKEND="Agg")
+    env["PYTHONPATH"] = root + os.pathsep + env.get("PYTHONPATH", "")
+    try:
+        subprocess.run([sys.executable, "-m", "pytest", "-q", "-p", "no:cacheprovider", "-p", "rtmon.suite_plugin",
+                        "-n", str(case.get("jobs", 8)), "--dist", "loadfile", tests], cwd=scratch, env=env,
+                       stdout=subprocess.DEVNULL, stderr=subprocess.DEVNULL, timeout=1500)
+        recs = []
+        if os.path.exists(out):
+            with open(out) as f:
+                recs = [json.loads(l) for l in f if l.strip()]
+    finally:
+        shutil.rmtree(scratch, ignore_errors=True)
+    acc.count(acc.outcomes, "suite_solutions", len(recs))
+    acc.count(acc.outcomes, "suite_tests_with_solutions", len({r.get("test") for r in recs}))
+    for r in recs:
+        acc.executions += 1
+        if r.get("harness_error"):
+            acc.count(acc.outcomes, "suite_extraction_error")
+            continue
+        for k2, v in r.get("clauses", {}).items():
+            acc.count(acc.clauses, k2 + "@suite", v)
+        decided = any(acc.mine(k2) for k2 in r.get("clauses", {}))
+        if decided:
+            acc.sigs.add(h([r.get("test"), r.get("problem"), r.get("clauses")]))
+        for fl in r.get("failed", []):
+            if acc.mine(fl["clause"]):
+                feats = features_for({"tasks": [], "selections": [], "requirements": [], "cumulative": [],
+                                      "sel_over_cumulative": r.get("sel_over_cumulative") or {}}, fl["clause"],
+                                     {"task": (fl["detail"] or {}).get("task")})
+                feats = {k3: v3 for k3, v3 in feats.items() if k3 == "selection_over_cumulative"}
+                acc.violation(fl["clause"], "admitted-invalid", dict(feats, workload="suite"),
+                              {"test": r.get("test"), "problem": r.get("problem"), "clause_detail": fl["detail"]})
+    if acc.sample is None and recs:
+        acc.sample = {"workload": "repository test-suite under the monitors", "solutions_judged": len(recs),
+                      "example": {k2: recs[0].get(k2) for k2 in ("test", "problem", "n_tasks", "n_constraints", "skipped")}}
+    if not recs:
+        acc.inconclusive.append("suite produced no solution records")
+
+
 def run_generic(case, prefixes, completeness=False):
     acc = Acc(prefixes)
     k = case["kind"]
+    if k == "suite":
+        run_suite_case(acc, case)
+        return acc.result()
     if k == "grid":
         run_grid(acc, case, completeness)
     elif k == "probe":
